@@ -694,6 +694,66 @@ func totality(c *vf.Ctx, m mode, phase int) bool {
 		}
 		c.Nontrivial(fmt.Sprintf("%s/header-length/%d/%d", m, phase, l))
 	}
+	// (e) declared-length sweep: the first cipher block / header is encrypted WITH the key
+	// by the model so that the reader sees exactly the declared packet_length L, for every
+	// L in 5..260 (every residue modulo 8, 16 and 32 several times) and maxPacket-33..
+	// maxPacket+33, with the padding_length classes next to every bound. L need not match the
+	// bytes that follow (so in general the packet is NOT authentic): the declared length alone
+	// drives how much is read, sliced and handed to the block cipher before the MAC can be
+	// looked at. Followed by enough bytes (seeded, then endless zeros) or cut off everywhere.
+	if phase == 1 {
+		bodyLen := 60 // 4+60 whole blocks of 8 and 16
+		if probe.LengthInClearOrSeparate() {
+			bodyLen = 64
+		}
+		var sweep []int
+		for l := 5; l <= 260; l++ {
+			sweep = append(sweep, l)
+		}
+		for l := maxPacket - 33; l <= maxPacket+33; l++ {
+			sweep = append(sweep, l)
+		}
+		for _, l := range sweep {
+			big := l > 260
+			padSet := []int{0, 3, 4, 5, l - 2, l - 1, l, 255}
+			if big {
+				padSet = []int{0, 4, 8, 255}
+			}
+			seen := map[int]bool{}
+			for _, pad := range padSet {
+				if pad < 0 || pad > 255 || seen[pad] {
+					continue
+				}
+				seen[pad] = true
+				body := c.Bytes("sweep-body", l, bodyLen)
+				body[0] = byte(pad)
+				wire, err := mk().Seal(9, uint32(l), body)
+				if err != nil {
+					viol("harness: model cannot seal", map[string]any{"mode": m.String(), "len": l, "err": err.Error()})
+					return false
+				}
+				authentic := l == bodyLen
+				d := func() map[string]any { return map[string]any{"padding_length": pad, "crafted_body_len": bodyLen} }
+				check("declared-length sweep, endless stream", &budgetReader{data: wire, endless: true, budget: legalMax + 1}, uint32(l), body, authentic, d())
+				if big {
+					continue
+				}
+				full := cat(wire, c.Bytes("sweep-tail", l, l+64+40))
+				check("declared-length sweep, enough seeded bytes then EOF", &budgetReader{data: full}, uint32(l), body, authentic, d())
+				// EOF at every short cut-off (quick: one padding class, L <= 68 covers every residue mod 32 twice)
+				if pad == 4 && (c.Thorough || l <= 68) {
+					limit := 4 + l + probe.TagSize() + 8
+					if limit > len(full) {
+						limit = len(full)
+					}
+					for t := 0; t < limit; t++ {
+						check("declared-length sweep, cut off", &budgetReader{data: full[:t]}, uint32(l), body, false, map[string]any{"padding_length": pad, "cut": t})
+					}
+				}
+			}
+			c.Nontrivial(fmt.Sprintf("%s/length-sweep/%d", m, l))
+		}
+	}
 	if phase == 1 && c.WantSample() {
 		c.Sample(map[string]any{"mode": m.String(), "totality": "short streams, authentic malformed packets, oversize declared lengths"})
 	}
@@ -704,7 +764,7 @@ func run(c *vf.Ctx) {
 	c.Rule("part 1, every authenticated cipher x MAC pair: real-writer streams of 1..4 packets (payload lengths from {1,20,300}; thorough: first packet {1,2,7,11,20,33,300,1100} and 5-packet arrangements) x {every single-bit flip of the first packet (9 stream shapes) and of every packet of an equal-length stream, " +
 		"every byte complemented/zeroed, every pair of bit flips in the 5 header bytes, every truncation point, every arrangement (index sequences of length 0..n+1 over n<=4 packets: all drops, duplications, reorders), 6 injected blobs at every packet boundary}; " +
 		"part 2, every mode incl. none: all 1-byte streams + all streams of <=4 bytes over {00,01,7f,80,ff}; model-sealed AUTHENTIC packets with every padding_length 0..255 x packet_length {0..33} and boundary padding_lengths (all 256 in thorough) x packet_length {34..44,60,124,252..300}; authentic complete packets with packet_length maxPacket+{1,2,4,8,12,16,28,32}, 2*maxPacket; " +
-		"38 boundary length fields (0..2^32-1) x every padding_length (boundary values for lengths > 33 in quick) with short body / prefix only / endless stream. non-trivial = distinct (mode, fault family, stream shape) actually executed on the real reader; " +
+		"declared-length sweep (first block/header encrypted with the key by the model): every packet_length 5..260 and maxPacket-33..maxPacket+33 x padding_length {0,3,4,5,L-2,L-1,L,255} followed by seeded bytes+EOF, endless zeros, and EOF at every cut-off; 38 boundary length fields (0..2^32-1) x every padding_length (boundary values for lengths > 33 in quick) with short body / prefix only / endless stream. non-trivial = distinct (mode, fault family, stream shape) actually executed on the real reader; " +
 		"oracle = invariant (payload only for positions whose bytes are untouched, equal to the written payload; error otherwise; never a panic; never more bytes consumed than the largest legal packet)")
 	c.Assume("verif/ref/sshpkt (KAT-validated) is used only to build authentic test packets; a reader is discarded after its first error, as the transport does; a MAC collision on the enumerated inputs is excluded")
 
